@@ -272,7 +272,8 @@ def compare_aux(kind, got, want):
     if got is None or want is None:
         return 0.0 if (got is None and want is None) else np.inf
     if auxk == "tangent":
-        return rp.tangent_dev(got, want)
+        # derived data: both sides must already be the projected vector
+        return rp.tangent_dev(got, want, project=(False, False))
     return rp.max_row_dev(got, want)
 
 
@@ -293,7 +294,9 @@ def reference_aux_dev(kind, obj_proj, obj_aux):
         want = rh.klein_to_proj(rp.segment_ideal_klein(pd[..., 0, :], pd[..., 1, :]))
         return rp.unordered_pair_dev(obj_aux, want)
     if auxk == "tangent":
-        return rp.tangent_dev(obj_aux, pd)
+        # stored (point, projected vector) against the reference projection of
+        # the stored primary (point, raw vector)
+        return rp.tangent_dev(obj_aux, pd, project=(False, True))
     raise ValueError(auxk)
 
 
